@@ -299,11 +299,30 @@ fn gen(g: &mut G, thorough: bool) -> Plan {
                 g.probe("stall-inside-tls-handshake");
             }
             // never pause at/after the end of the frame for length/chunked bodies (that is a complete response)
-            let k = if p.body.framing != Framing::Close { k.min(frame_end.saturating_sub(1)) } else { k };
+            let mut k = if p.body.framing != Framing::Close { k.min(frame_end.saturating_sub(1)) } else { k };
+            let mut phase = phase;
+            // (no draw) what has arrived when the head is parsed ends like a chunked body does - last chunk and empty
+            // line - but these seven octets are chunk *data*, and the peer stops (or drips) right after them
+            let mut one_segment = false;
+            if p.body.framing == Framing::Chunked && k % 3 == 0 && !p.body.extra_headers.iter().any(|(n, _)| n.eq_ignore_ascii_case("content-encoding")) {
+                let cm = p.body.wire.chunk_map.clone();
+                if let Some((ci, c)) = cm.iter().enumerate().find(|(_, c)| c.3 >= 9) {
+                    let poff: usize = cm[..ci].iter().map(|c| c.3).sum();
+                    if poff + 7 <= p.body.payload.len() && p.body.wire.bytes[c.1..c.1 + 7] == p.body.payload[poff..poff + 7] {
+                        p.body.wire.bytes[c.1..c.1 + 7].copy_from_slice(b"\r\n0\r\n\r\n");
+                        p.body.payload[poff..poff + 7].copy_from_slice(b"\r\n0\r\n\r\n");
+                        k = c.1 + 7;
+                        phase = "inside-chunk";
+                        one_segment = true;
+                        g.probe("first-segment-ends-like-a-chunked-body-inside-chunk-data");
+                    }
+                }
+            }
             p.k = k;
             p.phase = if p.tls_handshake_stall { "inside-tls-handshake" } else { phase };
             let wire = &p.body.wire.bytes;
             let (segs, _) = gen::segmentation(g, k, &p.body.wire.targets.clone());
+            let segs = if one_segment { vec![k] } else { segs };
             let mut sc = Script::from_wire(&wire[..k], &segs, End::Stall);
             if fam == Family::Drip {
                 let t = p.t_ms.unwrap();
@@ -712,10 +731,28 @@ fn resume_family(g: &mut G, ctx: &RunCtx) -> RunReport {
     plan.rereads = 0;
     plan.tls = g.chance(1, 3);
     plan.faults = ConnFaults { window: 64 * 1024, timeout_is_timed_out: g.chance(1, 3), ..Default::default() };
+    // (drawn last) the converse: a slow but steady peer.  The rest of the response comes in a few pieces with 3/4 of
+    // the read timeout between them - together more than the read timeout, each wait well below it, no overall
+    // timeout: nothing timed out, the response is read whole
+    let patient = g.chance(1, 3);
+    if patient {
+        g.probe("resume:slow-but-steady-peer");
+        let mut sc = Script::from_wire(&wire[..k], &segs, End::Stall);
+        let rest = &wire[k.min(wire.len())..];
+        let pieces = rest.len().min(2 + k % 5);
+        for i in 0..pieces {
+            let (a, b) = (rest.len() * i / pieces, rest.len() * (i + 1) / pieces);
+            sc.acts.push(Act::Wait(r_ms * 3 / 4 * NS_PER_MS));
+            sc.acts.push(Act::Send(rest[a..b].to_vec()));
+        }
+        sc.acts.push(Act::Wait(r_ms * 3 / 4 * NS_PER_MS));
+        sc.acts.push(Act::Fin);
+        plan.script = sc;
+    }
     let ran = bodyx::run(&plan, ctx, false);
     let mut stats = Stats::default();
     stats.absorb(&ran.history);
-    let tag = format!("Resume:{}:{}", phase, ["plain", "gzip", "deflate"][coded as usize]);
+    let tag = format!("{}:{}:{}", if patient { "Steady" } else { "Resume" }, phase, ["plain", "gzip", "deflate"][coded as usize]);
     let verdict = match &ran.observed {
         None => violation(format!("hang:{}", tag), "run torn down"),
         Some(Err(m)) => violation("panic", m.clone()),
@@ -725,7 +762,19 @@ fn resume_family(g: &mut G, ctx: &RunCtx) -> RunReport {
                 ConnEv::Read { t_in, t_out, res, .. } if t_out - t_in > r_ns => Some((*t_in, *t_out, format!("{:?}", res))),
                 _ => None,
             });
-            if let Some((a, b, res)) = slow {
+            if patient {
+                let first_err = o.send_err.clone().or_else(|| o.calls.iter().find_map(|c| c.res.as_ref().err().cloned()));
+                if let Some(e) = first_err {
+                    violation(
+                        format!("slow-but-steady-peer-reported-as-failed:{}:{}", e, tag),
+                        format!("the peer sent the rest of the response (from octet {} of {}) in pieces {} ms apart, the read timeout is {} ms and there is no overall timeout: {}", k, wire.len(), r_ms * 3 / 4, r_ms, e),
+                    )
+                } else if o.output != plan.payload {
+                    violation(format!("slow-but-steady-peer-body-differs:{}", tag), format!("{} octets read, {} sent", o.output.len(), plan.payload.len()))
+                } else {
+                    Verdict::Pass
+                }
+            } else if let Some((a, b, res)) = slow {
                 violation(format!("read-timeout-not-enforced:{}", tag), format!("a transport read waited {} ms, read timeout is {} ms (result {})", (b - a) / NS_PER_MS, r_ms, res))
             } else if o.send_err.is_none() && o.calls.iter().all(|c| c.res.is_ok()) {
                 violation(
